@@ -150,6 +150,7 @@ class O(HasTraits):
     e = Enum(1, 2, 3)
     m = Map({"k": 1})
     tp = Tuple(Int, Str)
+    tpf = Tuple(Float, Any, Int)
     inst = Instance(A)
     cb = Callable
     ei = Either(Int, Str)
@@ -177,6 +178,29 @@ class O(HasTraits):
 
 
 _CUR = [None]
+
+
+class ParS(HasTraits):
+    star = Int
+
+
+class OS(HasTraits):
+    """prefix="*" without a class __prefix__: the target name is the
+    attribute's own name"""
+    parent = Instance(ParS, ())
+    star = DelegatesTo("parent", prefix="*", listenable=False)
+
+
+#: an attribute name that is a str subclass instance (never interned)
+NM_STAR = NameStr("star")
+
+
+class _RaisingIndex:
+    def __index__(self):
+        raise RuntimeError("__index__ fails")
+
+
+_RAISER = _RaisingIndex()
 
 
 class _Reassigning(TraitType):
@@ -426,9 +450,26 @@ def cells():
     def ctrait_property_roundtrip(o, S):
         for n in ("p", "pr", "pv"):
             ct = O.class_traits()[n]
-            pickle.loads(pickle.dumps(ct))
-            copy.deepcopy(ct)
+            for c in (pickle.loads(pickle.dumps(ct)), copy.deepcopy(ct),
+                      copy.copy(ct)):
+                c.property_fields       # what a subclass's metaclass reads
     cell("ctrait-property-roundtrip", ctrait_property_roundtrip)
+
+    def star_prefix_noninterned_name(o, S):
+        x = OS()
+        for _ in range(3):
+            getattr(x, NM_STAR)
+            setattr(x, NM_STAR, 3)
+            x.base_trait(NM_STAR)
+    cell("delegate-star-prefix-noninterned-name",
+         star_prefix_noninterned_name)
+
+    def tuple_later_member_raises(o, S):
+        # the first member is converted (a new tuple is started), the caller's
+        # second item is carried over, the third member's protocol raises
+        expect((RuntimeError, TraitError),
+               lambda: setattr(o, "tpf", (1, S, _RAISER)))
+    cell("tuple-later-member-raises", tuple_later_member_raises, fails=True)
 
     def trait_set_many(o, S):
         try:
@@ -518,7 +559,7 @@ def neutrality(ctx):
                 for _ in range(3):
                     op(o, S)
                 gc.collect()
-                extra = (_pget, _pset, _pget_raises, A, Par, O)
+                extra = (_pget, _pset, _pget_raises, A, Par, O, NM_STAR)
                 r0 = (sys.getrefcount(S), sys.getrefcount(o))
                 e0 = [sys.getrefcount(x) for x in extra]
                 for _ in range(reps):
@@ -539,7 +580,8 @@ def neutrality(ctx):
         if any(de):
             ctx.violation("C18:refcount-drift-callables:%s" % name,
                           "cell %s: reference counts of (getter, setter, "
-                          "raising getter, class A, class Par, class O) "
+                          "raising getter, class A, class Par, class O, a "
+                          "str-subclass attribute name) "
                           "drifted by %r over %d repetitions" % (name, de,
                                                                  reps))
         if d != (0, 0):
